@@ -189,6 +189,9 @@ def make_ref_key(kind, created, uid, run_seed, label='signer'):
     elif kind.startswith('dsa'):
         lst = seams.pool()['dsa'][kind[3:]]
         body, alg, secret = rkeys.dsa_from_pool(lst[seed[0] % len(lst)], created, seed[1:41])
+    elif kind.startswith('elg'):
+        lst = seams.pool()['dsa'][kind[3:]]
+        body, alg, secret = rkeys.elg_from_pool(lst[seed[0] % len(lst)], created, seed[1:41])
     else:
         body, alg, secret = rkeys.gen_key(kind, created, seed[:72] if kind not in ('ed25519', 'cv25519') else seed[:32])
     return body, alg, secret
